@@ -86,6 +86,23 @@ def run(ctx):
         ctx.count('option-grammar')
         cases.append(vlib.Case('6502', files, argv if any(a.startswith('@') for a in argv) or not argv or argv[-1] in ('-',) or argv[0].startswith(('-D', '--d', '-h', '--he')) else argv + ['@a0'],
                                tool='basic', stdin=tiny if '-' in argv else None, meta={'style': 'options'}))
+    # a long line followed by a short line that ends in an extension introducer (the byte after it, in a reused line buffer,
+    # belongs to the previous line), for every dialect and LISTO value that matters
+    for dn in ('ARM', 'Mac', 'PDP11', 'Windows', '6502', 'Z80'):
+        idx_, be_, canon_ = basicprog.DIALECTS[dn]
+        for intro in (0xC6, 0xC7, 0xC8, 0x8D):
+            for second in (0x95, 0x8E, 0x00, 0xFF):
+                long_ = basicprog.Line(10, [basicprog.Item('lit', intro), basicprog.Item('lit', second), basicprog.Item('lit', 0x20), basicprog.Item('lit', 0xB9)] * 3)
+                short_ = basicprog.Line(20, [basicprog.Item('lit', intro)])
+                data = basicprog.encode([long_, short_], be_)
+                for lo in (7, 4, 0):
+                    cases.append(vlib.Case(dn, {'s.bbc': data}, ['--dialect', dn, '--listo', str(lo), '@s.bbc'], tool='basic', meta={'style': 'stale-buffer'}))
+    ctx.count('stale-buffer-cases', 6 * 4 * 4 * 3)
+    # file names that look like printf formats, existing (ill-formed content) and missing
+    for fn in ('100%sure%sthing.bbc', 'save%n.bbc', '%s%s%s%s%s%s%s%s', '%99999d.bbc', '%x%x%x%x.bbc'):
+        cases.append(vlib.Case('6502', {fn: b'\x0D\x00'}, ['@' + fn], tool='basic', meta={'style': 'format-name'}))
+        cases.append(vlib.Case('6502', {}, [fn], tool='basic', meta={'style': 'format-name'}))
+        cases.append(vlib.Case('6502', {}, ['--dialect', fn, fn], tool='basic', meta={'style': 'format-name'}))
     for kind in ('asan', 'asan-ndebug'):
         impl = ctx.build(kind)
         cs = cases if kind == 'asan' else [vlib.Case(c.tag, c.files, c.argv, tool='basic', stdin=c.stdin, meta=c.meta) for c in cases]
